@@ -4,7 +4,7 @@ from collections import defaultdict
 
 from common import MachineryError, seed, log
 from report import Report
-from alphabets import TABLES
+from alphabets import TABLES, ENC_POOL
 import dec_engine as de
 import gens_smiles as gs
 
@@ -183,6 +183,11 @@ def check_C03(tier):
     for alpha, tab, ml in [("chain", "default", n - q), ("ring", "default", n), ("bracket", "default", n - 1 - q),
                            ("ringbranch", "default", n + 2 - q), ("caps", "octet_rule", n - 1 - q), ("aro", "default", n - 1)]:
         enc_gen_replay(rep, "%s_%s" % (alpha, tab), ENC[alpha], TABLES[tab], ml, quick=quick, own=own)
+    rng = random.Random(seed() * 1013 + 3)
+    for k in range(1 if quick else 4):           # alphabet drawn from a large token pool by VERIF_SEED
+        alpha = sorted(rng.sample(ENC_POOL, 11)) + [t for t in ("C", "(", ")", "1") if rng.random() < 0.7]
+        enc_gen_replay(rep, "pool%d" % k, sorted(set(alpha)), "default", 4, quick=quick,
+                       own=("C03", "C02", "C14", "C04", "C05", "C06", "C10"))
     corpus_trace(rep, "datasets", quick, own, [relaxed_table()] + ([] if quick else ["default"]), per_file=(14 if quick else 400),
                  variants=(2 if quick else 4),
                  extra=[gs.macrocycle(k) for k in (3, 14, 15, 16, 17, 255, 256, 257, 300)] +
